@@ -163,6 +163,12 @@ def gst_deliver_one():
         h = pb.bus.handlers.get("message")
         if h is not None:
             h(pb.bus, item)
+            if item.type == Gst.MessageType.STREAM_START:
+                # a TAG message follows stream start; its conversion needs real Gst taglists, so
+                # the notification _Handler.on_tag would emit is sent directly (same listener path)
+                from mopidy.audio.listener import AudioListener
+
+                AudioListener.send("tags_changed", tags=["title"])
     elif kind == "about-to-finish" and "about-to-finish" in pb.signals:
         func, args = pb.signals["about-to-finish"]
         func(pb, *args)
@@ -585,7 +591,7 @@ def run_shutdown_case(case, wd):
             p.set(Core, "on_start", core_on_start)
             p.set(storage, "dump", dump)
             THREAD_COMPONENT[threading.get_ident()] = "Main"
-            wd.arm(case, 30)
+            wd.arm(case, 12)
             try:
                 status = commands.RootCommand().run(args, config)
             except BaseException as e:  # noqa: BLE001
@@ -593,7 +599,7 @@ def run_shutdown_case(case, wd):
             wd.disarm()
         left = len(pykka.ActorRegistry.get_all())
         # actor threads must end: wait briefly for them
-        t_end = time.monotonic() + 5
+        t_end = time.monotonic() + (5 if left == 0 else 0)
         while time.monotonic() < t_end:
             live = [t for t in threading.enumerate()
                     if t is not threading.current_thread() and t.name != "verif-watchdog" and t.is_alive()]
